@@ -18,4 +18,5 @@ def run(ctx):
     ds.run_hist_stream(ctx, 6 if quick else 80, 8, props={'C01'}, weights={'deploy': 1}, stream='after_empty_rollback',
                        plan_script=ds.hist_after_empty_rollback, setup=ds.setup_two_roots)
     ds.run_cli_stream(ctx, 6 if quick else 100, 3, props={'C01'}, stream='symlinked_outputs', script=ds.script_symlinked_outputs, setup=ds.setup_two_roots)
+    ds.run_cli_stream(ctx, 6 if quick else 100, 4, props={'C01'}, stream='case_rename', script=ds.script_case_rename, setup=ds.setup_all_targets)
     ds.run_lib_stream(ctx, 80 if quick else 1500, props={'C01'})
